@@ -28,8 +28,11 @@ func RemoveUnusedOutputs(topCalls StringSet, asts []*syntax.Ast) Edit {
 	usedPipes := make(map[decId]*syntax.Pipeline)
 	for _, ast := range asts {
 		for _, pipe := range ast.Pipelines {
+			// The bindings of every pipeline count as uses, including
+			// those of pipelines which no top-level call reaches (any
+			// more): they are not edited, so they must keep compiling.
+			usedPipes[makeDecId(pipe)] = pipe
 			if topCalls.Contains(pipe.Id) {
-				usedPipes[makeDecId(pipe)] = pipe
 				// Add child pipeline outputs to the set of pipelines to
 				// possibly trim.  Pipelines which aren't in the call graph
 				// for any top-level pipeline won't get changed.
